@@ -141,9 +141,9 @@ impl<'a> LoweringManager<'a> {
     };
     let mut instructions =
       function.body.iter().flat_map(|it| instance.lower_stmt(it)).collect_vec();
-    let return_value_expr = instance.lower_expr(&function.return_value);
     // Wrap return value with ref.as_non_null for reference types since locals are nullable
     let return_type = instance.type_cx.lower(&function.type_.return_type);
+    let return_value_expr = instance.lower_expr_assigned_to(&function.return_value, return_type);
     let return_value_expr =
       if matches!(return_type, wasm::Type::Int31 | wasm::Type::Eq | wasm::Type::Reference(_)) {
         wasm::InlineInstruction::RefAsNonNull(Box::new(return_value_expr))
@@ -492,7 +492,12 @@ impl<'a> LoweringManager<'a> {
         let field_types = self.type_field_mappings.get(&type_ref);
         let mut wasm_expression_list = Vec::with_capacity(expression_list.len());
         for (i, e) in expression_list.iter().enumerate() {
-          let lowered = self.lower_expr(e);
+          // A (ref eq) variable (e.g. a captured `_this`) stored into a struct-typed field
+          // needs the same downcast as any other assignment.
+          let lowered = match field_types.and_then(|fields| fields.get(i)).copied() {
+            Some(field_type) => self.lower_expr_assigned_to(e, field_type),
+            None => self.lower_expr(e),
+          };
           // If the field expects a reference type and we have Int32Literal(0), wrap with ref.i31
           let needs_i31 = if let Some(fields) = field_types {
             if let Some(field_type) = fields.get(i) {
